@@ -360,9 +360,19 @@ func oracleC10Round(l *harness.Live) (c10Info, *harness.Failure) {
 func TestC10RoundTrip(t *testing.T) {
 	wsPool := []string{"", "", " ", "\t", "\n ", "  "}
 	runRapid(t, uC10Round, func(rt *rapid.T) {
-		doc := xgen.Doc(rt, xgen.DefaultDoc())
+		o := xgen.DefaultDoc()
+		hostile := rapid.IntRange(0, 4).Draw(rt, "hostile-names") == 0
+		if hostile {
+			// names that contain '-', '.', '_' and digits: the scanner must keep them apart from operators and numbers
+			o.ElNames = []string{"a-1", "b.c", "_x", "a1", "div", "and-x"}
+			o.AtNames = []string{"x-y", "y.1"}
+		}
+		doc := xgen.Doc(rt, o)
 		ctx := xgen.Context(rt, doc, 4)
 		g := xgen.NewG(rt, doc)
+		if hostile {
+			g.ElNames, g.AtNames = o.ElNames, o.AtNames
+		}
 		var e xast.Expr
 		nodeSet := true
 		label := ""
@@ -421,6 +431,9 @@ func TestC10RoundTrip(t *testing.T) {
 			harness.Report(rt, uC10Round, l, f)
 		}
 		labels := append(info.labels, label)
+		if hostile {
+			labels = append(labels, "names:hostile")
+		}
 		uC10Round.Case(harness.Hash64(info.variant), info.nontrivial, labels, func() interface{} {
 			return map[string]interface{}{"expr": l.Expr, "whitespace_variant": info.variant, "expanded": xast.RenderExpanded(e), "parse": xast.Dump(e)}
 		})
